@@ -455,21 +455,22 @@ def is_probe(ix: Any, f: FuncInfo, c: ast.Call) -> bool:
     return False
 
 
-def reach(ix: Any, root: FuncInfo) -> list[FuncInfo]:
-    """root and every function of the package it can run (calls resolved as in `callee_of`), transitively"""
+def reach(ix: Any, root: FuncInfo, callee: Any = None) -> list[FuncInfo]:
+    """root and every function of the package it can run (calls resolved as in `callee_of`, or by `callee(ix, f, call)`), transitively"""
+    callee = callee or callee_of
     out, todo = [root], [root]
     while todo:
         g = todo.pop()
         for c in ast.walk(g.node):
             if isinstance(c, ast.Call):
-                h = callee_of(ix, g, c)
+                h = callee(ix, g, c)
                 if h is not None and h not in out:
                     out.append(h)
                     todo.append(h)
     return out
 
 
-def _closure(funcs: list[FuncInfo], ix: Any, seed: "set[str]") -> "set[str]":
+def _closure(funcs: list[FuncInfo], ix: Any, seed: "set[str]", callee_of: Any = callee_of) -> "set[str]":
     """quals of the functions that are in `seed` or call (transitively) a function that is"""
     got = set(seed)
     changed = True
@@ -577,7 +578,7 @@ class Dependent:
 
 
 def state_dependence(ix: Any, root: FuncInfo, producing: "set[int]", touching: "set[int]", sanctioned: "set[int]",
-                     cfgs: dict) -> list[Dependent]:
+                     cfgs: dict, callee: Any = None, probe: Any = None) -> list[Dependent]:
     """For every call in the functions `root` can run that produces something (a call whose id is in `producing`, or a call of a
     function that contains one, transitively): the observations of the filesystem that decide whether it happens or that flow into
     its arguments.
@@ -586,18 +587,23 @@ def state_dependence(ix: Any, root: FuncInfo, producing: "set[int]", touching: "
     `touching`, a probe, or a function containing one) and calls of functions that contain an observation; their outcomes are
     followed through locals and attributes - assigned from them, or assigned where an observation decides. `sanctioned` are exits
     (statements, by id) that are allowed to depend on an observation: they are taken out of the graph, so that what follows them on
-    the other arm does not count as depending on it."""
+    the other arm does not count as depending on it.
+
+    `callee(ix, f, call)` replaces `callee_of` as the resolution of calls, `probe(ix, f, call)` replaces `is_probe` as what counts as
+    a probe (both optional: a caller that starts above the builder follows more kinds of call and tells input reads apart)."""
     from ..astutil import Locals, cfg_of, norm
     from ..cfg import walk_own
 
-    funcs = reach(ix, root)
+    callee_of = callee or globals()["callee_of"]
+    is_probe = probe or globals()["is_probe"]
+    funcs = reach(ix, root, callee_of)
     init = ix.find_method(root.cls, "__init__") if root.cls is not None else None
-    for g in (reach(ix, init) if init is not None else []):   # attributes the object is built with are read by its methods
+    for g in (reach(ix, init, callee_of) if init is not None else []):   # attributes the object is built with are read by its methods
         if g not in funcs:
             funcs.append(g)
     calls = {g.qual: [c for c in ast.walk(g.node) if isinstance(c, ast.Call)] for g in funcs}
     probes = {g.qual: {id(c) for c in calls[g.qual] if is_probe(ix, g, c)} for g in funcs}
-    touchers = _closure(funcs, ix, {g.qual for g in funcs if probes[g.qual] or any(id(c) in touching for c in calls[g.qual])})
+    touchers = _closure(funcs, ix, {g.qual for g in funcs if probes[g.qual] or any(id(c) in touching for c in calls[g.qual])}, callee_of)
 
     def touches(g: FuncInfo, nodes: Any) -> bool:
         return any(isinstance(c, ast.Call) and (id(c) in touching or id(c) in probes[g.qual] or
@@ -611,8 +617,8 @@ def state_dependence(ix: Any, root: FuncInfo, producing: "set[int]", touching: "
 
     handlers = {g.qual: {id(h) for t in ast.walk(g.node) if isinstance(t, ast.Try) and touches(g, (c for b in t.body for c in ast.walk(b)))
                          for h in t.handlers if os_error(h)} for g in funcs}
-    observers = _closure(funcs, ix, {g.qual for g in funcs if probes[g.qual] or handlers[g.qual]})
-    producers = _closure(funcs, ix, {g.qual for g in funcs if any(id(c) in producing for c in calls[g.qual])})
+    observers = _closure(funcs, ix, {g.qual for g in funcs if probes[g.qual] or handlers[g.qual]}, callee_of)
+    producers = _closure(funcs, ix, {g.qual for g in funcs if any(id(c) in producing for c in calls[g.qual])}, callee_of)
     attrs: set[str] = set()   # attributes that carry the outcome of an observation
 
     def analyse(g: FuncInfo) -> tuple[list[Dependent], bool]:
